@@ -129,37 +129,46 @@ class SemanticErrorChecker:
     def check_for_recursive_task_calls(self) -> bool:
         """Checks that no Task calls itself, neither directly nor via other Tasks.
 
+        Every Task call that lies on a cycle of the call graph is reported.
+
         Returns:
             True if the call graph of the Tasks contains no cycle.
         """
 
-        def called_task_names(statements: List) -> List[str]:
-            names = []
+        def task_calls(statements: List) -> List[TaskCall]:
+            calls = []
             for statement in statements:
                 if isinstance(statement, TaskCall):
-                    names.append(statement.name)
+                    calls.append(statement)
                 elif isinstance(statement, Parallel):
-                    names.extend(task_call.name for task_call in statement.task_calls)
+                    calls.extend(statement.task_calls)
                 elif isinstance(statement, Condition):
-                    names.extend(called_task_names(statement.passed_stmts))
-                    names.extend(called_task_names(statement.failed_stmts))
+                    calls.extend(task_calls(statement.passed_stmts))
+                    calls.extend(task_calls(statement.failed_stmts))
                 elif isinstance(statement, (CountingLoop, WhileLoop)):
-                    names.extend(called_task_names(statement.statements))
-            return names
+                    calls.extend(task_calls(statement.statements))
+            return calls
 
         def reaches(name: str, target: str, visited: set) -> bool:
+            if name == target:
+                return True
             if name not in self.tasks or name in visited:
                 return False
             visited.add(name)
-            callees = called_task_names(self.tasks[name].statements)
-            return target in callees or any(reaches(c, target, visited) for c in callees)
+            return any(
+                reaches(task_call.name, target, visited)
+                for task_call in task_calls(self.tasks[name].statements)
+            )
 
         valid = True
         for task in self.tasks.values():
-            if reaches(task.name, task.name, set()):
-                error_msg = f"Task '{task.name}' calls itself recursively"
-                self.error_handler.print_error(error_msg, context=task.context)
-                valid = False
+            for task_call in task_calls(task.statements):
+                if reaches(task_call.name, task.name, set()):
+                    error_msg = (
+                        f"The call of Task '{task_call.name}' in Task '{task.name}' is recursive"
+                    )
+                    self.error_handler.print_error(error_msg, context=task_call.context)
+                    valid = False
         return valid
 
     def check_statements(self, task: Task) -> bool:
